@@ -981,6 +981,17 @@ func (g *Gen) instr(in ssa.Instruction, st *State) {
 			st.cells[v] = w.zero(et)
 		}
 	case *ssa.Store:
+		if al, ok := v.Addr.(*ssa.Alloc); ok && g.arrBase[al].S != "" {
+			// whole-array assignment to a local array (`for _, pair := range pairs`): element by element into its cells
+			if at, ok := al.Type().Underlying().(*types.Pointer).Elem().Underlying().(*types.Array); ok && at.Len() <= 16 {
+				val := g.val(v.Val, st)
+				for i := int64(0); i < at.Len(); i++ {
+					ea := Addr{kind: "elem", slice: g.arrBase[al], idx: T(fmt.Sprint(i), "Int"), typ: at.Elem()}
+					w.storeAddr(ea, T(fmt.Sprintf("(select %s %d)", val.S, i), w.sortOf(at.Elem())), st)
+				}
+				return
+			}
+		}
 		a := g.resolveAddr(v.Addr, st)
 		w.storeAddr(a, g.val(v.Val, st), st)
 	case *ssa.UnOp:
@@ -1249,6 +1260,7 @@ func (g *Gen) instr(in ssa.Instruction, st *State) {
 		m, k, val := g.val(v.Map, st), g.val(v.Key, st), g.val(v.Value, st)
 		kv, kd, vals, dom := w.mapHeaps(st, mt)
 		g.addOb("nilmap", fmt.Sprintf("nilmap@%d", g.w.prog.Fset.Position(v.Pos()).Line), v.Pos(), st, fmt.Sprintf("(not (= %s 0))", m.S))
+		g.mapUpdateClauses(v, st)
 		// the updated heaps are NAMED: the update mentions the old heap twice, so nesting the text would double it per
 		// store (a 25-entry map literal would need 2^25 copies)
 		nv := w.fresh("Hmu", vals.Sort)
@@ -1577,6 +1589,17 @@ func (g *Gen) call(c *ssa.CallCommon, res ssa.Value, st *State, pos token.Pos) {
 			}
 		}
 	}
+	if g.ctr != nil && g.ctr.CallbacksReady {
+		// a contracted, parameterless function literal handed to the callee as a callback: what it requires must hold when
+		// it is handed over (the callee may run it at once); its effects go to a scratch state
+		for _, a := range c.Args {
+			if mc, ok := a.(*ssa.MakeClosure); ok {
+				if fn, ok := mc.Fn.(*ssa.Function); ok && len(fn.Params) == 0 {
+					g.callLiteralByContract(mc, nil, nil, st.clone(), pos)
+				}
+			}
+		}
+	}
 	g.call0(c, res, st, pos)
 	// proof hints attached to this call site
 	if g.ctr == nil || (g.ctr.AtCall == nil && g.ctr.AtCallDo == nil) {
@@ -1669,6 +1692,69 @@ func (g *Gen) call(c *ssa.CallCommon, res ssa.Value, st *State, pos token.Pos) {
 }
 
 // callOrdinal: 1-based index of this call among the calls to the same callee, in source order.
+// mapUpdateClauses: `at call mapupdate#n before [label] e` states an obligation on the n-th map store of the function (in
+// source order), `mapupdate:KEY` on the store(s) under the constant string key KEY, `mapupdate:*#n` on the n-th store under a
+// computed key; arg0 is the map, arg1 the key and arg2 the value about to be stored.
+func (g *Gen) mapUpdateClauses(v *ssa.MapUpdate, st *State) {
+	if g.ctr == nil || g.ctr.AtCallBefore == nil {
+		return
+	}
+	var all []*ssa.MapUpdate
+	for _, b := range g.f.Blocks {
+		for _, in := range b.Instrs {
+			if mu, ok := in.(*ssa.MapUpdate); ok {
+				all = append(all, mu)
+			}
+		}
+	}
+	sort.SliceStable(all, func(i, j int) bool { return all[i].Pos() < all[j].Pos() })
+	constKey := func(mu *ssa.MapUpdate) (string, bool) {
+		k := mu.Key
+		if mi, ok := k.(*ssa.MakeInterface); ok {
+			k = mi.X
+		}
+		if c, ok := k.(*ssa.Const); ok && c.Value != nil && c.Value.Kind() == constant.String {
+			return constant.StringVal(c.Value), true
+		}
+		return "", false
+	}
+	ord, vord, nv := 0, 0, 0
+	for i, mu := range all {
+		_, isC := constKey(mu)
+		if !isC {
+			nv++
+		}
+		if mu == v {
+			ord = i + 1
+			if !isC {
+				vord = nv
+			}
+		}
+	}
+	keys := []string{"mapupdate", fmt.Sprintf("mapupdate#%d", ord)}
+	if ck, ok := constKey(v); ok {
+		keys = append(keys, "mapupdate:"+ck)
+	} else {
+		keys = append(keys, fmt.Sprintf("mapupdate:*#%d", vord))
+	}
+	for _, k := range keys {
+		for _, h := range g.ctr.AtCallBefore[k] {
+			g.markAtCall(k)
+			env := &SpecEnv{g: g, st: st, old: g.entry, fn: g.f, argOverride: map[string]Term{}, bound: map[string]Term{}, boundTypes: map[string]types.Type{}, evalBlock: g.curBlock, role: roleAssert}
+			for i, a := range []ssa.Value{v.Map, v.Key, v.Value} {
+				env.bound[fmt.Sprintf("arg%d", i)] = g.val(a, st)
+				env.boundTypes[fmt.Sprintf("arg%d", i)] = a.Type()
+			}
+			t, err := env.evalBool(h.Expr)
+			if err != nil {
+				g.note("spec error in before-clause [%s]: %v", h.Label, err)
+				continue
+			}
+			g.addOb("before", h.Label, v.Pos(), st, t.S)
+		}
+	}
+}
+
 func (g *Gen) callOrdinal(c *ssa.CallCommon, name string) int {
 	type cp struct {
 		pos token.Pos
